@@ -323,12 +323,13 @@ Section Rel.
   Variable pmap : list (oprule * prefix_ctor).
 
   Inductive Expr : nat -> list item -> expr -> list item -> Prop :=
-  | E_prefix rbp r p its x mid u t rest :
+  | E_prefix rbp i r p its x mid u t rest :
+      item_op i = Some r ->
       ops_get tbl r = Some (Prefix, p) ->
       Expr (p - 1) its x mid ->
       map_prefix pmap r (Some x) = Ok (Some u) ->
       Loop rbp u mid t rest ->
-      Expr rbp (IOp r :: its) t rest
+      Expr rbp (i :: its) t rest
   | E_primary rbp i its x t rest :
       item_op i = None -> Prim i x -> Loop rbp x its t rest -> Expr rbp (i :: its) t rest
   with Loop : nat -> expr -> list item -> expr -> list item -> Prop :=
